@@ -50,6 +50,9 @@ pub struct SeqSpec {
   pub reenter: Vec<(bool, i64)>,
   /// wrap the inner observables of flat_map in probe stages (C03)
   pub probe_inners: bool,
+  /// the subscriber's callbacks keep a clone of their own Subscription (as callbacks that
+  /// unsubscribe themselves do): only the library's release of the callbacks breaks that cycle (C17)
+  pub keep_sub: bool,
 }
 
 pub fn src_to_json(s: &SrcSpec) -> Json {
@@ -108,6 +111,7 @@ pub fn spec_from_json(w: &Json) -> Option<SeqSpec> {
     allow_threads: w.b("allow_threads"),
     drop_all: w.b("drop_all"),
     probe_inners: w.b("probe_inners"),
+    keep_sub: w.get("keep_sub").is_some() && w.b("keep_sub"),
     reenter: {
       let mut v = Vec::new();
       for r in w.a("reenter") {
@@ -364,8 +368,19 @@ pub fn run_seq(spec: &SeqSpec, cfg: RunCfg) -> SeqRun {
         }
       }));
     }
+    let own_sub: Arc<Mutex<Option<Subscription<'static>>>> = Arc::new(Mutex::new(None));
+    if spec.keep_sub && spec.reenter.is_empty() {
+      let own_sub = own_sub.clone();
+      rec2.hook = Some(Arc::new(move |_ev: &Ev| {
+        let _ = own_sub.lock().unwrap().is_some();
+      }));
+    }
     let sub = rec2.subscribe(&o);
     *sub_cell.lock().unwrap() = Some(sub.clone());
+    if spec.keep_sub && spec.reenter.is_empty() {
+      *own_sub.lock().unwrap() = Some(sub.clone());
+    }
+    drop(own_sub);
     let mut using = if spec.use_using { Some(utils::Using::new(sub.clone())) } else { None };
     {
       let mut g = out2.lock().unwrap();
@@ -448,7 +463,7 @@ pub fn run_seq(spec: &SeqSpec, cfg: RunCfg) -> SeqRun {
         // clones the harness itself still holds: the master outside the run, this probe, the
         // recorder, the step closure, one per hot source
         let n_hot = lives.iter().filter(|l| matches!(l, Live::Hot(_))).count();
-        let own = 4 + n_hot;
+        let own = 5 + n_hot; // (+ the run closure's own handle `tok_for_run`)
         *alive_cell.lock().unwrap() = Some(Arc::strong_count(&t.0).saturating_sub(own));
       }
       for l in lives.iter() {
